@@ -82,6 +82,11 @@ type batch struct {
 	Retry bool `json:"retry,omitempty"`
 	// Deadline: the listener runs the deadline filter and some requests carry a deadline (HTTP pairings)
 	Deadline bool `json:"deadline,omitempty"`
+	// AddHeader (bolt, boltv2): the route adds a request header (request_headers_to_add). A request scripted
+	// "encode-overflow" carries a header block just below the 65535-byte limit of the frame format: with the added
+	// header it cannot be represented any more, its upstream encode fails after its stream was created on the shared
+	// upstream connection - and it must fail alone
+	AddHeader bool `json:"add_header,omitempty"`
 }
 
 var xProtos = []string{"bolt", "boltv2", "dubbo", "dubbo-thrift", "tars"}
@@ -100,6 +105,12 @@ func genBatch(rt *rapid.T, pairs []string) batch {
 	scripts := []string{"reply", "reply", "reply", "reply", "reply", "stall", "late", "close", "reset"}
 	if isX {
 		scripts = append(scripts, "twice", "unknown-id")
+		if (b.Pair == "bolt" || b.Pair == "boltv2") && rapid.IntRange(0, 2).Draw(rt, "addHeaderRoute") == 0 {
+			b.AddHeader = true
+			// many of them, next to many ordinary requests on several connections: the failing encode has to fall between
+			// the creation of two other streams on the shared upstream connection
+			scripts = append(scripts, "encode-overflow", "encode-overflow", "encode-overflow", "encode-overflow", "encode-overflow", "reply", "reply")
+		}
 	} else if rapid.IntRange(0, 1).Draw(rt, "retryPolicy") == 0 {
 		b.Retry = true
 		scripts = append(scripts, "retried", "retried", "retried", "retried-stall", "retried-reset")
@@ -272,6 +283,15 @@ func runBatch(rt *rapid.T, b batch) {
 		}
 		opts.StreamFilters = []v2.Filter{{Type: "transcoder", Config: map[string]interface{}{"type": typ}}}
 	}
+	if b.AddHeader {
+		opts.Routers = func(cn string) []v2.Router {
+			rs := mesh.DefaultRouters(cn, opts.Timeout, opts.Retry)
+			for i := range rs {
+				rs[i].Route.RequestHeadersToAdd = []*v2.HeaderValueOption{{Header: &v2.HeaderValue{Key: "x-added-by-route", Value: strings.Repeat("r", 120)}}}
+			}
+			return rs
+		}
+	}
 	if b.Deadline {
 		opts.StreamFilters = append([]v2.Filter{{Type: deadlineFilterType, Config: map[string]interface{}{}}}, opts.StreamFilters...)
 	}
@@ -286,6 +306,11 @@ func runBatch(rt *rapid.T, b batch) {
 	go func() {
 		defer close(relDone)
 		want := len(b.Reqs)
+		for _, r := range b.Reqs {
+			if r.Script == "encode-overflow" {
+				want-- // never reaches the upstream
+			}
+		}
 		if down == "Http1" {
 			// an HTTP/1.1 client connection carries one request at a time: only the first request of every
 			// connection can be at the upstream before anything is released
@@ -345,6 +370,12 @@ func runBatch(rt *rapid.T, b batch) {
 				sent := map[uint64]reqSpec{}
 				for _, r := range reqs {
 					sent[r.ID] = r
+					if r.Script == "encode-overflow" {
+						// header block of 65535-40 bytes: service + token + x-big; the route's added header does not fit any more
+						big := 65495 - 58 - len(r.Token)
+						_ = xc.Send(mesh.XRequest(down, uint32(r.ID), r.Token, []byte(mesh.Wrap(r.Token)), 0, codec.KV{K: []byte("x-big"), V: bytes.Repeat([]byte("h"), big)}))
+						continue
+					}
 					_ = xc.Send(mesh.XBuildRequest(down, r.ID, r.Token, padded(r.Token, "-req", r.ReqLen)[len(mesh.Wrap(r.Token)):]))
 				}
 				if b.DropConn == ci {
@@ -546,6 +577,15 @@ func runBatch(rt *rapid.T, b batch) {
 		if r.Script == "late" {
 			classes = append(classes, "late-reply")
 			break
+		}
+	}
+	if b.AddHeader {
+		classes = append(classes, "route-adds-header")
+		for _, r := range b.Reqs {
+			if r.Script == "encode-overflow" {
+				classes = append(classes, "request-that-cannot-be-encoded-upstream")
+				break
+			}
 		}
 	}
 	if b.Deadline {
